@@ -23,7 +23,7 @@ BUDGET = {
     "quick": {"cases": 40000, "seconds": 90, "shards": 8},
     "thorough": {"cases": 2000000, "seconds": 900, "shards": 16},
 }
-REQUIRED_OBS = ["normalize_ill_conditioned_column_judged", "refilled_in_place_cases", "K>=17_uint8", "accuracy_checked", "confusion_checked", "per_label_checked", "purity_checked", "normalize_checked", "all_correct_cases",
+REQUIRED_OBS = ["normalize_ill_conditioned_column_judged", "normalize_integer_table", "long_vector_cases", "refilled_in_place_cases", "K>=17_uint8", "accuracy_checked", "confusion_checked", "per_label_checked", "purity_checked", "normalize_checked", "all_correct_cases",
                 "all_wrong_cases", "K=1", "purity_one_with_errors"]
 MIN_NONTRIVIAL = 500
 
@@ -42,6 +42,12 @@ def generate(rng, tier, idx):
             A[:, int(rng.integers(0, d))] = float(rng.normal())     # a constant column
         if rng.random() < 0.3:
             A = np.round(A, 1)
+        if rng.random() < 0.2:
+            # an integer-typed table (counts, pixel values), with or without a constant column
+            Z = rng.integers(-50, 50, size=(n, d))
+            if rng.random() < 0.5:
+                Z[:, int(rng.integers(0, d))] = int(rng.integers(-5, 6))
+            return {"kind": "normalize", "A": Z.tolist(), "dtype": str(rng.choice(["int64", "int32", "uint8", "int16"]))}
         return {"kind": "normalize", "A": A.tolist()}
     K = int(rng.integers(1, 9)) if rng.random() < 0.85 else int(rng.integers(9, 25))
     N = int(rng.integers(K, 201)) if rng.random() < 0.5 else int(rng.integers(K, K + 12))
@@ -73,7 +79,15 @@ def check(case):
     res = Result()
     if case["kind"] == "normalize":
         A = np.array(case["A"], dtype=float)
-        c = safe_call(g.normalize, A.copy())
+        if case.get("dtype"):
+            Z = np.array(case["A"], dtype=np.int64)
+            if case["dtype"] == "uint8":
+                Z = Z + 50
+            A = Z.astype(float)
+            res.see("normalize_integer_table")
+            c = safe_call(g.normalize, Z.astype(case["dtype"]))
+        else:
+            c = safe_call(g.normalize, A.copy())
         if not c.ok:
             res.violate("normalize", f"C20/exception/normalize/{type(c.exc).__name__}", f"normalize raised at {c.where}")
             return res
@@ -223,3 +237,26 @@ def shrink(case):
             p2 = case["preds"][:i] + case["preds"][i + 1:]
             if all(p <= max(l2) for p in p2):
                 yield {**case, "labels": l2, "preds": p2}
+
+
+def extra(tier, seed, shard=0, nshards=1):
+    """Long label vectors (whole-dataset evaluations): lengths around 2^14 and 2^16 and 20000, few classes, 10% errors."""
+    out = []
+    sizes = [16384, 16385, 20000, 65537] if tier == "quick" else [16383, 16384, 16385, 20000, 32769, 65536, 65537, 100003, 262145]
+    for t, N in enumerate(sizes):
+        if t % nshards != shard % nshards:
+            continue
+        rng = np.random.default_rng([seed, 20, N])
+        K = int(rng.integers(2, 7))
+        labels = np.concatenate([np.arange(K), rng.integers(0, K, size=N - K)])
+        rng.shuffle(labels)
+        preds = np.where(rng.random(N) < 0.9, labels, rng.integers(0, K, size=N))
+        case = {"kind": "labels", "labels": [int(v) for v in labels], "preds": [int(v) for v in preds], "as_array": True, "dtype": "int64", "decoy_shift": 0}
+        r = check(case)
+        if r.violations:
+            out.append((case, r))
+        else:
+            r.see("long_vector_cases")
+            out.append(({"long_vectors": {"N": N, "K": K}}, r))
+    return out
+
